@@ -234,8 +234,13 @@ pub fn run(rep: &mut Report) {
     let cs: Vec<u64> = vec![0, 1, 999_999_999, NS_DAY as u64, WEEK as u64, 1 << 53, NPC as u64 - 1, NPC as u64, NPC as u64 + 1, 1 << 62, 1 << 63, (1 << 63) + 1, 2 * NPC as u64, 5 * NPC as u64 + 7, u64::MAX - 1, u64::MAX];
     sweep(rep, "c20.counter", 4 * cs.len() as u64, |i, out| j_counter((i % 4) as usize, cs[(i / 4) as usize], out));
     // order independence (depth-2 operation sequences on one thread): time of week both ways, counters, day of year
-    crate::engine::order_pairs(rep, "c20.order", 4 * 12, |i, out| {
+    crate::engine::order_pairs(rep, "c20.order", 4 * 12 + 6, |i, out| {
         let ts = SCALES[(i % 9) as usize];
+        if i >= 48 {
+            // epochs whose elapsed times are mirror images about the reference epoch (1900-01-01 +- 1827 days in TAI, UTC, TT)
+            let (y, d) = [(1905i32, 2u32), (1894, 365)][(i % 2) as usize];
+            return j_doy(y, d, 0.0, [TimeScale::TAI, TimeScale::UTC, TimeScale::TT][((i - 48) / 2) as usize], out);
+        }
         match i / 12 {
             0 => j_from_tow([0u32, 1, 1024, 2086, 5218, 6366][(i % 6) as usize], [0u64, 1, 345_618_000_000_000, 604_799_999_999_999][((i / 3) % 4) as usize], ts, out),
             1 => j_to_tow(ts, [0i128, 1, WEEK - 1, WEEK, 3 * NPC + 5, 1_261_440_018 * NS_S][(i % 6) as usize], out),
